@@ -11,4 +11,5 @@ CONSTANTS
 INVARIANT TypeOK
 INVARIANT Symmetric
 INVARIANT ZeroDiagonal
+INVARIANT ShortcutSound
 INVARIANT ShortcutKeepsComputed
